@@ -437,8 +437,11 @@ def worker(ctx):
             run_terminal(ctx, unit)
             continue
         if ctx.rng.random() < 0.03:
-            lines = ctx.rng.sample([b'{"a": 1}', b"[1, 2]", b'"x"', b"7", b"null", b'{"k": {"l": []}}', b"true"], 5)
-            unit = {"open_stdin": True, "lines": lines, "take": ctx.rng.choice((1, 2, 3)), "tty": ctx.rng.random() < 0.6, "filler": ctx.rng.choice((b"", b" \n \n", b"\n" * 5000)),
+            take = ctx.rng.choice((1, 2, 3))
+            # the producer goes quiet right behind the last wanted value (nothing but blanks follow, or nothing at all), or it has
+            # already sent more values
+            lines = ctx.rng.sample([b'{"a": 1}', b"[1, 2]", b'"x"', b"7", b"null", b'{"k": {"l": []}}', b"true"], take if ctx.rng.random() < 0.6 else 5)
+            unit = {"open_stdin": True, "lines": lines, "take": take, "tty": ctx.rng.random() < 0.6, "filler": ctx.rng.choice((b"", b" \n \n", b"\n" * 5000)),
                     "targs": ctx.rng.choice(([], ["--unique"], ["-c", ".=v"], ["--on-error", "stderr"]))}
             run_open_stdin(ctx, unit)
             continue
